@@ -43,6 +43,7 @@ func newPairTarget(kind string) *pairTarget {
 }
 
 type pairResizer struct {
+	maxM    int64 // 0: enumerate every stall point of R
 	name    string
 	base    int
 	prep    func(t *pairTarget)
@@ -55,6 +56,10 @@ func pairResizers() []pairResizer {
 	grow := map[int]bool{}
 	for k := 1000; k < 1030; k++ {
 		grow[k] = true
+	}
+	gs := map[int]bool{}
+	for k := 1000; k < 1140; k++ {
+		gs[k] = false
 	}
 	shr := map[int]bool{}
 	for k := 1590; k < 1600; k++ {
@@ -84,6 +89,16 @@ func pairResizers() []pairResizer {
 			}
 		}, final: shr},
 		{name: "clear", base: 40, run: func(t *pairTarget) { t.clear() }, isClear: true},
+		// the table is replaced twice and ends up with its old length (and a new identity)
+		// while the writer is suspended: only R's first stall points matter
+		{name: "grow-then-shrink", maxM: 2, base: 1, run: func(t *pairTarget) {
+			for k := 1000; k < 1140; k++ {
+				t.store(k, mkVal(k, int64(k)))
+			}
+			for k := 1000; k < 1140; k++ {
+				t.del(k)
+			}
+		}, final: gs},
 	}
 }
 
@@ -127,6 +142,15 @@ func runPairStall(a *args, res *result) {
 		kinds = []string{"Cache", "CacheOf[int,val]"}
 	case "C12":
 		kinds = []string{"Map", "MapOf[string,any]", "Cache", "CacheOf[string,any]"}
+	case "C05", "C11":
+		kinds = []string{"Map", "MapOf[int,val]", "Cache", "CacheOf[int,val]"}
+	}
+	keepR := func(name string) bool { return true }
+	keepW := func(name string) bool { return true }
+	if a.prop == "C05" || a.prop == "C11" || a.prop == "C12" {
+		// a lighter selection: the resizes that matter for "nothing lost across a retry"
+		keepR = func(name string) bool { return name != "shrink-batch" && name != "clear" }
+		keepW = func(name string) bool { return name == "compute-insert" || name == "update" || name == "delete" }
 	}
 	unit := int64(0)
 	for round := int64(0); round < a.n; round++ {
@@ -140,7 +164,13 @@ func runPairStall(a *args, res *result) {
 				if (rz.name == "grow-batch" && !mapLike) || (rz.name == "grow-batch-mapof" && mapLike) {
 					continue
 				}
+				if !keepR(rz.name) {
+					continue
+				}
 				for _, wr := range pairWriters() {
+					if !keepW(wr.name) {
+						continue
+					}
 					unit++
 					if !a.mine(unit - 1) {
 						continue
@@ -157,7 +187,7 @@ func runPairStall(a *args, res *result) {
 func pairEnumerate(res *result, kind string, rz pairResizer, wr pairWriter, round int64, stuckCh chan string) {
 	maxN := 0
 	missesM := 0
-	for M := int64(1); missesM < 3 && M < 1500; M++ {
+	for M := int64(1); missesM < 3 && M < 1500 && (rz.maxM == 0 || M <= rz.maxM); M++ {
 		// enumerate W's stall points for this M; stop early when W never parks
 		missesN := 0
 		parkedAnyN := false
